@@ -1,17 +1,16 @@
 SPECIFICATION Spec
-CONSTANTS MaxLen = 2 MaxN = 4 Infinite = FALSE MaxOut = 100
+CONSTANTS MaxLen = 2 MaxN = 3 Infinite = FALSE MaxOut = 100
   Vals = "nat" Stops = FALSE MaxRuns = 1 MaxLead = 2
-  Alphabet <- AlphaC01Ext
-  Must <- ExtC01
+  Alphabet <- AlphaObj
+  Must <- ObjC01
   Pairs <- Both
 INVARIANT OpEqDen
 INVARIANT OutIsPrefix
-INVARIANT EmptyIsIdentity
-INVARIANT BadRejectedAtBuild
 INVARIANT Regroup
 INVARIANT NoWorkBeforeDemand
 INVARIANT NoDataInvisible
+INVARIANT LeadUntouched
 INVARIANT SliceIsPySlice
 INVARIANT Buffers
-INVARIANT LeadUntouched
+INVARIANT Emitted
 CHECK_DEADLOCK FALSE
